@@ -875,6 +875,12 @@ func mapIntransitiveActivityProperties(mm map[string][]byte, a *IntransitiveActi
 		}
 		hasData = true
 	}
+	if a.Origin != nil {
+		if mm["origin"], err = gobEncodeItem(a.Origin); err != nil {
+			return hasData, err
+		}
+		hasData = true
+	}
 	if a.Instrument != nil {
 		if mm["instrument"], err = gobEncodeItem(a.Instrument); err != nil {
 			return hasData, err
